@@ -49,15 +49,17 @@ CONF = {
     "C06": dict(prefixes=("C06.",), builds=("pure",),
                 model=[("ctx", 400, 4000), ("ctxsync", 300, 3000), ("ctxfaults", 300, 3000), ("nonasync", 300, 3000), ("nonasyncfaults", 400, 4000), ("kill", 400, 4000),
                        ("override", 150, 1500), ("overridenonasync", 150, 1500), ("ctxnonlifo", 250, 2500), ("timer", 250, 2500), ("timersync", 150, 1500), ("timerfaults", 150, 1500)],
+                monitor_only=[("faultyexit", 300, 3000)],
                 big=[("ctxsync", 300, 3000), ("nonasync", 200, 2000)]),
     "C07": dict(prefixes=("C07.",), builds=("pure",),
                 model=[("override", 400, 5000), ("overridesync", 300, 3500), ("overridefaults", 300, 3500), ("ctx", 100, 1500),
                        ("overridedag", 500, 5000), ("overrideset", 400, 4000), ("overrideapi", 300, 3000), ("overridenonasync", 250, 2500)],
+                monitor_only=[("overridefaulty", 300, 3000)],
                 big=[("overridesync", 300, 3000), ("overridefaults", 300, 3000)]),
     "C08": dict(prefixes=("C08.",), builds=("pure",),
                 model=[("session", 400, 4000), ("syncfaults", 200, 2500), ("overflow", 300, 3000), ("overflowbatch", 400, 4000), ("sync", 150, 1500), ("throw", 250, 2500), ("spawnsync", 300, 3000), ("lazyfail", 150, 1500),
                        ("cancelsession", 300, 3000)],
-                monitor_only=[("sessionfaulty", 400, 4000), ("faultyctx", 250, 2500), ("faultysync", 250, 2500), ("faultyalways", 400, 4000)],
+                monitor_only=[("sessionfaulty", 400, 4000), ("faultyctx", 250, 2500), ("faultysync", 250, 2500), ("faultyalways", 400, 4000), ("faultyexit", 200, 2000)],
                 big=[("session", 300, 3000)], fresh=True),
     "C12": dict(prefixes=("C12.",), builds=("pure",),
                 model=[("dedup", 400, 2500), ("dedupdirty", 500, 3500), ("dedupsync", 250, 1500), ("dedupself", 500, 2500),
@@ -206,6 +208,8 @@ def main():
     pid = a.pid
     tier = a.tier or common.tier()
     os.environ["VERIF_TIER"] = tier
+    if pid == "C08":
+        os.environ["VERIF_HANDOVER"] = "1"      # realize.py: scheduler hand-over before the first value() call (C08 only)
     conf = CONF[pid]
     seed = common.seed()
     t0 = time.time()
